@@ -12,6 +12,11 @@ Monitors:
        sequence of other sessions (other kernels and trace sets, same prefix, other flush thresholds,
        sessions abandoned by an exception, projection sessions that match ranks of the kernel under test);
        its dump and its trace files must be identical every time.
+Besides the generated loop nests, hand-written kernels in the library's other idioms go through the same three
+monitors: projection-driven convolutions, n-ary co-iteration, kernels that hand a whole rank to one fiber-level
+operator (`a_k * b_k`, `a_k + b_k`, `a_k += b_k`, `a_k *= s` ...; the operations executed are counted from the raw
+operand lists) and convolution / gather kernels that look their input up by coordinate (getPayload) in a tensor whose
+rank no loop iterates.
 """
 import os
 import random
@@ -27,20 +32,34 @@ from fvmon.observe import snap_values
 from fvmon.taps import OpCounter
 
 SPEC = {
-    "anchors": ["fibertree.core.metrics:Metrics.beginCollect", "fibertree.core.metrics:Metrics.endCollect", "fibertree.core.metrics:Metrics.incCount", "fibertree.core.metrics:Metrics.registerRank", "fibertree.core.metrics:Metrics.trace", "fibertree.core.payload:Payload.__mul__", "fibertree.core.payload:Payload.__iadd__", "fibertree.core.iterators:iterRange", "fibertree.core.iterators:__and__", "fibertree.core.iterators:__lshift__", "fibertree.model.compute:Compute.numOps", "fibertree.model.compute:Compute.numIters"],
+    "anchors": ["fibertree.core.metrics:Metrics.beginCollect", "fibertree.core.metrics:Metrics.endCollect", "fibertree.core.metrics:Metrics.incCount", "fibertree.core.metrics:Metrics.registerRank", "fibertree.core.metrics:Metrics.trace", "fibertree.core.payload:Payload.__mul__", "fibertree.core.payload:Payload.__iadd__", "fibertree.core.iterators:iterRange", "fibertree.core.iterators:__and__", "fibertree.core.iterators:__lshift__", "fibertree.model.compute:Compute.numOps", "fibertree.model.compute:Compute.numIters",
+                "fibertree.core.fiber:Fiber.__mul__", "fibertree.core.fiber:Fiber.__add__", "fibertree.core.fiber:Fiber.__iadd__", "fibertree.core.fiber:Fiber.getPayload"],
     "rule": ("case = one kernel from the C06 family (random operand values incl. empty operands, optional tiling, "
              "either intersection style, any loop order) + a subset of (rank, trace type) registrations + a sequence "
              "of 0-4 earlier sessions of 5 kinds.  Non-trivial = the kernel executes at least 2 leaf bodies with "
-             "collection on and at least one rank is traced; distinct = distinct case."),
+             "collection on and at least one rank is traced; distinct = distinct case.  Plus hand-written kernels of the same "
+             "Einsum family in the library's other idioms: (a) projection-driven and (b) n-ary co-iteration kernels, (c) kernels "
+             "whose innermost rank is handled by one fiber-level operator per row (fiber * fiber, fiber + fiber, fiber *= fiber, "
+             "fiber += fiber, fiber *= scalar, fiber += scalar; reduced into Z_m or populated into Z_mk): the element-wise "
+             "operations the operator executes on the kernel's behalf are counted from the raw operand lists (intersection for *, "
+             "union for +, right operand's elements for +=, non-empty elements for *= scalar, whole shape for += scalar), "
+             "(d) convolution / gather kernels that look the input up by coordinate (getPayload(w), getPayload(w, allocate=False, "
+             "default=0), getPayload(c, w) from the root) in a tensor whose rank is not one of the loop ranks, in loop orders "
+             "QS and SQ, with or without a co-iterated channel rank, any subset of (rank, trace type) registered - also for "
+             "the rank that is only looked up; every hand-written kernel is run off / on / on-again (same prefix)."),
     "shards": {"quick": 16, "thorough": 16},
     "min_counts": {"quick": {"evaluations": 150, "differential_runs": 150, "op_executions_tapped": 1000,
                              "numiters_checked": 150, "isolation_sessions": 200, "dump_compares": 300, "conv_runs": 60,
-                             "nary_runs": 60, "conv_runs_with_prebuilt_projections": 20}},
+                             "nary_runs": 60, "conv_runs_with_prebuilt_projections": 20, "fiberop_runs": 60,
+                             "fiberop_elementwise_ops": 400, "lookup_runs": 60, "lookup_kernel_ops": 400}},
     "assumptions": [
         "num_cached_uses is configuration, not session state: it is set to the same value before every run of the kernel under test",
         "counting rule for adds follows the documented choice: an accumulate into a zero-valued box is an update, not an add",
         "operands are tensors with declared shapes (populate under collection asserts a shape on the destination)",
         "a loop level driven directly by the dense (shape) iterator of a single uncompressed-format operand emits no iter rows (iterRangeShape never calls addUse); such levels are excluded from the iteration-count clause",
+        "likewise the Q loop of the lookup kernels (iterShapeRef) and the rank handled by a fiber-level operator (iterated implicitly inside the operator as well) are excluded from the iteration-count clause; the outer ranks of those kernels are not",
+        "fiber *= fiber also empties the left operand's elements outside the intersection; whether emptying is a counted update is not fixed by the statement, so for that form only the multiply and add counts are compared",
+        "fiber-with-scalar value-returning operators (fiber * s, s + fiber, ...) are not generated: they compute on unboxed values, so nothing they do is a payload operation (observed, not claimed; see FIBER_FORMS_GUARDED)",
     ],
 }
 
@@ -49,9 +68,15 @@ _ops = {"c": None}
 
 
 def generate(rng, tier, shard, nshards, mon):
-    n = (960 if tier == "quick" else 40000) // nshards
+    n = (1280 if tier == "quick" else 52000) // nshards
     for i in range(n):
-        if i % 6 == 5:
+        if i % 8 == 0:
+            yield _gen_fiberop(rng)
+            continue
+        if i % 8 == 4:
+            yield _gen_lookup(rng)
+            continue
+        if i % 8 == 5:
             # 1-D convolution through project(): O[q] += I[q + s] * F[s]
             W = rng.randint(2, 9)
             S = rng.randint(1, 3)
@@ -62,7 +87,7 @@ def generate(rng, tier, shard, nshards, mon):
                    "build": rng.choice(["inline", "inline", "before-session", "previous-session"]),
                    "traces": rng.choice(["all", "all", "some", "none"]), "ncu": rng.choice([2, 3, 1000])}
             continue
-        if i % 6 == 2:
+        if i % 8 == 2:
             # three or four operands co-iterated on one rank, as nested `&`, as one flat Fiber.intersection(...), or leader-follower
             spec = kernels.rand_spec(rng, family=rng.choice(kernels.FAMILIES3), tiles=False)
             spec["style"] = rng.choice(["two-finger", "two-finger", "leader-follower"])
@@ -108,6 +133,68 @@ def generate(rng, tier, shard, nshards, mon):
                     e["src"], e["dst"] = ranks[0], "Q"
             earlier.append(e)
         yield {"spec": spec, "traces": traces, "earlier": earlier, "ncu": rng.choice([2, 3, 7, 1000])}
+
+
+VALS = [1, 2, 3, -1, -2, 4]
+# fiber-level operator forms (the element-wise loop is implicit, executed inside the library on the kernel's behalf)
+FIBER_FORMS = ["mul", "mul", "add", "imul", "iadd", "imul-scalar", "iadd-scalar"]
+# Observed, not claimed (DESIGN 12.3): `fiber * scalar`, `scalar * fiber`, `fiber + scalar`, `scalar + fiber` compute on the
+# unboxed values, so the element-wise multiplications / additions they execute are not *payload* operations and are
+# reported as 0 (their in-place forms do count); the quantifier is the C06 family of loop nests, so these forms are
+# not generated (they would report under exactness:<metric>:fiber-scalar-operator).
+FIBER_FORMS_GUARDED = ["mul-scalar", "rmul-scalar", "add-scalar", "radd-scalar"]
+# (a scatter-style kernel that fetches its output element with getPayloadRef(q) on a rank that no loop iterates raised
+# AssertionError - Metrics.addUse: rank not registered - only when collection is on, until repository fix 42e82d0:
+# key lookup-kernel-under-collection:raised:AssertionError:getPayloadRef)
+LOOKUPS = ["getPayload", "getPayload", "getPayload-noalloc", "getPayload-point", "getPayloadRef-scatter"]
+LOOKUPS_GUARDED = []
+
+
+def _rand_traces(rng, ranks):
+    mode = rng.random()
+    if mode < 0.2:
+        return []
+    out = []
+    for r in ranks:
+        if mode < 0.5:
+            out += [[r, tt] for tt in TRACE_TYPES]
+            continue
+        if rng.random() < 0.6:
+            out.append([r, "iter"])
+        for tt in TRACE_TYPES[1:]:
+            if rng.random() < 0.2:
+                out.append([r, tt])
+    return out
+
+
+def _gen_fiberop(rng):
+    from fvmon import gen
+    M, K = rng.randint(1, 4), rng.randint(1, 5)
+    form = rng.choice(FIBER_FORMS)
+    case = {"kind": "fiberop", "form": form, "M": M, "K": K, "out": rng.choice(["m", "m", "mk"]),
+            "a": gen.rand_nest(rng, [M, K], rng.choice([0.3, 0.6, 0.9, 1.0]), 0, VALS),
+            "traces": _rand_traces(rng, ["M", "K"]), "ncu": rng.choice([2, 3, 1000])}
+    if form.endswith("scalar"):
+        case["s"] = rng.choice([2, 3, -1, 2, 0])
+    else:
+        case["b"] = gen.rand_nest(rng, [M, K], rng.choice([0.0, 0.3, 0.6, 0.9, 1.0]), 0, VALS)
+    return case
+
+
+def _gen_lookup(rng):
+    from fvmon import gen
+    W = rng.randint(2, 8)
+    S = rng.randint(1, min(3, W))
+    C = rng.choice([0, 0, 1, 2, 3])
+    lookup = rng.choice(LOOKUPS)
+    if lookup == "getPayload-point" and C == 0:
+        C = rng.randint(1, 3)
+    di, df = rng.choice([0.0, 0.4, 0.7, 1.0]), rng.choice([0.3, 0.7, 1.0])
+    return {"kind": "lookup", "W": W, "S": S, "C": C, "lookup": lookup, "order": rng.choice(["qs", "sq"]),
+            "skipzero": rng.random() < 0.4,
+            "i": gen.rand_nest(rng, ([C] if C else []) + [W], di, 0, VALS),
+            "f": gen.rand_nest(rng, ([C] if C else []) + [S], df, 0, VALS),
+            "traces": _rand_traces(rng, ["Q", "S", "W"] + (["C"] if C else [])), "ncu": rng.choice([2, 3, 1000])}
 
 
 def _counter():
@@ -361,7 +448,358 @@ def _run_nary(case, mon):
         shutil.rmtree(tmp, ignore_errors=True)
 
 
+# ------------------------------------------------------------------------------------------
+# hand-written kernels: fiber-level operator forms, lookups by coordinate
+# ------------------------------------------------------------------------------------------
+METRICS = ("payload_mul", "payload_add", "payload_update")
+
+
+def _begin(case, prefix):
+    Metrics.setNumCachedUses(case["ncu"])
+    Metrics.beginCollect(prefix)
+    for r, tt in case["traces"]:
+        Metrics.trace(r, type_=tt)
+
+
+def _end(prefix):
+    Metrics.endCollect()
+    return {k: dict(v) for k, v in (Metrics.dump() or {}).items()}, _read_files(prefix)
+
+
+def _fiberop(case, prefix, collect):
+    """Z_m = sum_k op(A_mk, B_mk)  or  Z_mk = op(A_mk, B_mk), the K rank handled by ONE fiber-level operator per row
+    (fiber * fiber, fiber + fiber, fiber *= fiber, fiber += fiber, fiber *= scalar, fiber += scalar, ...).
+    -> {"z": content of Z, "dump", "files", "bodies"}"""
+    from fvmon.observe import content
+    M, K, form = case["M"], case["K"], case["form"]
+    two = "b" in case
+    out_mk = case["out"] == "mk"
+    a_t = Tensor.fromUncompressed(rank_ids=["M", "K"], root=case["a"], shape=[M, K], name="A")
+    b_t = Tensor.fromUncompressed(rank_ids=["M", "K"], root=case["b"], shape=[M, K], name="B") if two else None
+    z_t = Tensor(rank_ids=["M", "K"] if out_mk else ["M"], shape=[M, K] if out_mk else [M], name="Z")
+    s = case.get("s")
+    bodies = {"M": 0}
+    if collect:
+        _begin(case, prefix)
+    a_m, z_m = a_t.getRoot(), z_t.getRoot()
+    src = (a_m & b_t.getRoot()) if two else a_m
+    for m, (z_x, p) in z_m << src:
+        bodies["M"] += 1
+        if two:
+            a_k, b_k = p
+        else:
+            a_k, b_k = p, None
+        if form == "mul":
+            t_k = a_k * b_k
+        elif form == "add":
+            t_k = a_k + b_k
+        elif form == "imul":
+            a_k *= b_k
+            t_k = a_k
+        elif form == "iadd":
+            a_k += b_k
+            t_k = a_k
+        elif form == "imul-scalar":
+            a_k *= s
+            t_k = a_k
+        elif form == "iadd-scalar":
+            a_k += s
+            t_k = a_k
+        elif form == "mul-scalar":
+            t_k = a_k * s
+        elif form == "rmul-scalar":
+            t_k = s * a_k
+        elif form == "add-scalar":
+            t_k = a_k + s
+        else:
+            t_k = s + a_k
+        if out_mk:
+            for k, (z_ref, t) in z_x << t_k:
+                z_ref += t
+        else:
+            for k, t in t_k:
+                z_x += t
+    res = {"bodies": bodies}
+    if collect:
+        res["dump"], res["files"] = _end(prefix)
+    res["z"] = content(z_t, 0)
+    return res
+
+
+def _fiberop_oracle(case):
+    """The same Einsum on the raw lists: result, element-wise operations executed (one per element the operator's
+    documented domain covers: intersection for *, union for +, the elements of the right operand for fiber += fiber,
+    the non-empty elements for *= scalar, the whole shape for += scalar), loop bodies."""
+    M, K, form = case["M"], case["K"], case["form"]
+    out_mk = case["out"] == "mk"
+    s = case.get("s")
+    t_ = {"payload_mul": 0, "payload_add": 0, "payload_update": 0}
+    z, bodies = {}, {"M": 0}
+    for m in range(M):
+        ra = case["a"][m]
+        rb = case["b"][m] if "b" in case else None
+        if not any(ra) or (rb is not None and not any(rb)):
+            continue
+        bodies["M"] += 1
+        if form in ("mul", "imul"):
+            t = {k: ra[k] * rb[k] for k in range(K) if ra[k] != 0 and rb[k] != 0}
+            t_["payload_mul"] += len(t)
+        elif form == "add":
+            t = {k: ra[k] + rb[k] for k in range(K) if ra[k] != 0 or rb[k] != 0}
+            t_["payload_add"] += len(t)
+        elif form == "iadd":
+            t = {k: ra[k] + rb[k] for k in range(K) if ra[k] != 0 or rb[k] != 0}
+            for k in range(K):
+                if rb[k] != 0:
+                    t_["payload_update"] += 1
+                    t_["payload_add"] += 1 if ra[k] != 0 else 0
+        elif form in ("imul-scalar", "mul-scalar", "rmul-scalar"):
+            t = {k: ra[k] * s for k in range(K) if ra[k] != 0}
+            t_["payload_mul"] += len(t)
+            if form == "imul-scalar":
+                t_["payload_update"] += len(t)
+        elif form == "iadd-scalar":
+            t = {k: ra[k] + s for k in range(K)}
+            t_["payload_update"] += K
+            t_["payload_add"] += sum(1 for k in range(K) if ra[k] != 0)
+        else:
+            t = {k: ra[k] + s for k in range(K)}
+            t_["payload_add"] += K
+        for k in sorted(t):
+            if t[k] == 0:
+                continue
+            key = (m, k) if out_mk else (m,)
+            old = z.get(key, 0)
+            z[key] = old + t[k]
+            t_["payload_update"] += 1
+            t_["payload_add"] += 1 if old != 0 else 0
+    if form == "imul":
+        # `fiber *= fiber` also empties the elements of the left operand outside the intersection; whether emptying
+        # an element is one of "those payload operations" is not fixed by the statement: the update clause is skipped
+        t_["payload_update"] = None
+    return {k: v for k, v in z.items() if v != 0}, t_, bodies
+
+
+def _lookup(case, prefix, collect):
+    """O_q = sum_s I_(q+s) * F_s  (optionally with a channel rank C on I and F): the input is NOT co-iterated, it is
+    looked up by coordinate inside loops over other ranks.  -> {"z", "dump", "files", "bodies", "tally"}"""
+    from fvmon.observe import content
+    W, S, C, lk = case["W"], case["S"], case["C"], case["lookup"]
+    Q = W - S + 1
+    top, tshape = (["C"], [C]) if C else ([], [])
+    i_t = Tensor.fromUncompressed(rank_ids=top + ["W"], root=case["i"], shape=tshape + [W], name="I")
+    f_t = Tensor.fromUncompressed(rank_ids=top + ["S"], root=case["f"], shape=tshape + [S], name="F")
+    o_t = Tensor(rank_ids=["Q"], shape=[Q], name="O")
+    bodies = {"C": 0, "Q": 0, "S": 0, "W": 0}
+    tally = {"payload_mul": 0, "payload_add": 0, "payload_update": 0}
+    if collect:
+        _begin(case, prefix)
+    o_q = o_t.getRoot()
+
+    def fetch(i_x, c, w):
+        if lk == "getPayload":
+            return i_x.getPayload(w)
+        if lk == "getPayload-noalloc":
+            return i_x.getPayload(w, allocate=False, default=0)
+        return i_x.getPayload(c, w)         # a point, from the root of I
+
+    def mac(o_ref, i_val, f_val):
+        if case["skipzero"] and Payload.get(i_val) == 0:
+            return
+        old = Payload.get(o_ref)
+        o_ref += i_val * f_val
+        tally["payload_mul"] += 1
+        tally["payload_update"] += 1
+        if old != 0:
+            tally["payload_add"] += 1
+
+    def inner(i_x, f_s, c):
+        if lk == "getPayloadRef-scatter":
+            for s, f_val in f_s:
+                bodies["S"] += 1
+                for w, i_val in i_x:
+                    bodies["W"] += 1
+                    if 0 <= w - s < Q:
+                        mac(o_q.getPayloadRef(w - s), i_val, f_val)
+        elif case["order"] == "qs":
+            for q, o_ref in o_q.iterShapeRef():
+                bodies["Q"] += 1
+                for s, f_val in f_s:
+                    bodies["S"] += 1
+                    mac(o_ref, fetch(i_x, c, q + s), f_val)
+        else:
+            for s, f_val in f_s:
+                bodies["S"] += 1
+                for q, o_ref in o_q.iterShapeRef():
+                    bodies["Q"] += 1
+                    mac(o_ref, fetch(i_x, c, q + s), f_val)
+
+    if not C:
+        inner(i_t.getRoot(), f_t.getRoot(), None)
+    elif lk == "getPayload-point":
+        for c, f_s in f_t.getRoot():
+            bodies["C"] += 1
+            inner(i_t.getRoot(), f_s, c)
+    else:
+        for c, (i_w, f_s) in i_t.getRoot() & f_t.getRoot():
+            bodies["C"] += 1
+            inner(i_w, f_s, c)
+    res = {"bodies": bodies, "tally": tally}
+    if collect:
+        res["dump"], res["files"] = _end(prefix)
+    res["z"] = content(o_t, 0)
+    return res
+
+
+def _lookup_oracle(case):
+    W, S, C, lk = case["W"], case["S"], case["C"], case["lookup"]
+    Q = W - S + 1
+    t_ = {"payload_mul": 0, "payload_add": 0, "payload_update": 0}
+    z, bodies = {}, {"C": 0, "Q": 0, "S": 0, "W": 0}
+
+    def mac(q, i, f):
+        if case["skipzero"] and i == 0:
+            return
+        old = z.get((q,), 0)
+        z[(q,)] = old + i * f
+        t_["payload_mul"] += 1
+        t_["payload_update"] += 1
+        t_["payload_add"] += 1 if old != 0 else 0
+
+    if not C:
+        rows = [(case["i"], case["f"])]
+    elif lk == "getPayload-point":
+        rows = [(case["i"][c], case["f"][c]) for c in range(C) if any(case["f"][c])]
+    else:
+        rows = [(case["i"][c], case["f"][c]) for c in range(C) if any(case["f"][c]) and any(case["i"][c])]
+    for ri, rf in rows:
+        if C:
+            bodies["C"] += 1
+        sv = [(s, rf[s]) for s in range(S) if rf[s] != 0]
+        if lk == "getPayloadRef-scatter":
+            for s, f in sv:
+                bodies["S"] += 1
+                for w in range(W):
+                    if ri[w] != 0:
+                        bodies["W"] += 1
+                        if 0 <= w - s < Q:
+                            mac(w - s, ri[w], f)
+        elif case["order"] == "qs":
+            for q in range(Q):
+                bodies["Q"] += 1
+                for s, f in sv:
+                    bodies["S"] += 1
+                    mac(q, ri[q + s], f)
+        else:
+            for s, f in sv:
+                bodies["S"] += 1
+                for q in range(Q):
+                    bodies["Q"] += 1
+                    mac(q, ri[q + s], f)
+    return {k: v for k, v in z.items() if v != 0}, t_, bodies
+
+
+def _run_handwritten(case, mon):
+    fiberop = case["kind"] == "fiberop"
+    kern, oracle = (_fiberop, _fiberop_oracle) if fiberop else (_lookup, _lookup_oracle)
+    label = "fiber-operator-kernel" if fiberop else "lookup-kernel"
+    flavour = case["form"] if fiberop else case["lookup"].split("-")[0]      # the operator form / the lookup method
+    # clause suffix of the exactness keys: which family of kernel statements executed the operations
+    if not fiberop:
+        fam = "lookup-kernel"
+    elif flavour in FIBER_FORMS_GUARDED:
+        fam = "fiber-scalar-operator"
+    else:
+        fam = "fiber-level-operator"
+    what = f"{label} {case}"
+    tmp = tempfile.mkdtemp(prefix="fv15h-")
+    prefix = os.path.join(tmp, "h")
+    tap = _counter()
+    try:
+        want_z, want, want_bodies = oracle(case)
+        try:
+            r_off = kern(case, None, False)
+        except BaseException as e:      # noqa
+            if isinstance(e, KeyboardInterrupt):
+                raise
+            mon.violation(f"{label}:raised-without-collection:{type(e).__name__}:{flavour}", f"{what} raised {type(e).__name__}: {e} with collection off")
+            return
+        try:
+            tap.reset()
+            tap.active = True
+            try:
+                r_on = kern(case, prefix, True)
+            finally:
+                tap.active = False
+        except BaseException as e:      # noqa
+            if isinstance(e, KeyboardInterrupt):
+                raise
+            _abort_session()
+            mon.violation(f"{label}-under-collection:raised:{type(e).__name__}:{flavour}",
+                          f"{what} runs with collection off but raised {type(e).__name__}: {e} with collection on")
+            return
+        mon.count("fiberop_runs" if fiberop else "lookup_runs")
+        mon.count("differential_runs")
+        mon.check(r_off["z"] == want_z, f"{label}:result", f"{what}: result {r_off['z']}, dense reference {want_z}")
+        mon.check(r_off["bodies"] == want_bodies, f"{label}:bodies", f"{what}: loop bodies {r_off['bodies']}, dense reference {want_bodies}")
+        mon.check(r_on["z"] == r_off["z"], "transparency:output-differs", f"{what}: output differs between collection off and on")
+        if not fiberop:
+            mon.check(r_on["tally"] == want, f"{label}:tally", f"{what}: the kernel body executed {r_on['tally']}, dense reference {want}")
+        comp = r_on["dump"].get("Compute", {})
+        tapped = tap.expected_metrics()
+        n_el = 0
+        for metric in METRICS:
+            if want[metric] is None:
+                continue
+            n_el += want[metric]
+            mon.check(comp.get(metric, 0) == want[metric], f"exactness:{metric}:{fam}",
+                      f"Metrics reports {metric}={comp.get(metric, 0)}, the kernel executed {want[metric]}; {what}")
+        mon.count("fiberop_elementwise_ops" if fiberop else "lookup_kernel_ops", n_el)
+        mon.count("op_executions_tapped", sum(tap.counts.values()))
+        for metric in METRICS:
+            mon.check(comp.get(metric, 0) == tapped[metric], f"exactness:{metric}:reported-differs-from-operator-executions",
+                      f"Metrics reports {metric}={comp.get(metric, 0)}, Payload operator executions observed in the session "
+                      f"amount to {tapped[metric]} ({dict(tap.counts)}); {what}")
+        mon.check(not (set(comp) - set(METRICS)), "exactness:unknown-metric", f"unexpected Compute metrics {set(comp) - set(METRICS)}")
+        for r, tt in case["traces"]:
+            if tt != "iter" or r == "K" or (r == "Q" and flavour != "getPayloadRef"):
+                # K: also iterated implicitly inside the fiber-level operator; Q: driven by the dense (shape) iterator
+                continue
+            fn = f"{prefix}-{r}-iter.csv"
+            wb = want_bodies.get(r, 0)
+            if not os.path.exists(fn):
+                mon.check(wb == 0, "iters:trace-file-missing", f"rank {r} executed {wb} loop bodies but has no iter trace file; {what}")
+                continue
+            mon.count("numiters_checked")
+            got = Compute.numIters(fn)
+            mon.check(got == wb, "iters:count", f"numIters({r})={got}, loop bodies executed at that rank: {wb}; {what}")
+        # isolation: the same kernel again, same prefix
+        try:
+            r2 = kern(case, prefix, True)
+        except BaseException as e:      # noqa
+            if isinstance(e, KeyboardInterrupt):
+                raise
+            _abort_session()
+            mon.violation(f"isolation:raised:{type(e).__name__}", f"{what} raised {type(e).__name__}: {e} when run as a second session")
+            return
+        mon.count("isolation_sessions")
+        mon.count("dump_compares")
+        mon.check(r2["dump"] == r_on["dump"], "isolation:dump:repeated", f"dump {r2['dump']} differs from the first session's {r_on['dump']}; {what}")
+        mon.check(r2["files"] == r_on["files"], "isolation:trace-files:content:repeated",
+                  f"trace files differ from the first session's: {[k for k in sorted(set(r2['files']) | set(r_on['files'])) if r2['files'].get(k) != r_on['files'].get(k)][:3]}; {what}")
+        mon.check(r2["z"] == r_off["z"], "isolation:output:repeated", f"{what}: output differs in a later session")
+        if n_el >= 2:
+            mon.nontrivial()
+        mon.state((case["kind"], flavour, case.get("out") or case.get("order"), n_el, len(case["traces"])))
+    finally:
+        _abort_session()
+        shutil.rmtree(tmp, ignore_errors=True)
+
+
 def run_case(case, mon):
+    if case.get("kind") in ("fiberop", "lookup"):
+        _run_handwritten(case, mon)
+        return
     if case.get("kind") == "conv":
         _run_conv(case, mon)
         return
